@@ -68,17 +68,22 @@ func goFirstCharEscaped(s string) bool {
 }
 
 // goFieldKey: compiled name of a property written by writer.go writeDefinition
-// (getSyslSafeName, then "_" appended for native type names).
+// (getSyslSafeName, then "_" appended for native type names and reserved words).
 func goFieldKey(name string) string {
 	k := name
 	if !startsNameLike(name) && !goFirstCharEscaped(name) {
 		k = "_" + k
 	}
-	if isGoBuiltin(k) {
+	if isGoBuiltin(k) || goReservedWords.MatchString(k) {
 		k += "_"
 	}
 	return k
 }
+
+// goReservedWords: utils.go reservedSyslWords, the words the lexer does not accept as a
+// field name; writeDefinition appends "_" to them as it does for native type names.
+var goReservedWords = regexp.MustCompile(
+	"^((?i)as|return|if|for|foreach|until|else|loop|alt|while)$|^(GET|POST|DELETE|PUT|PATCH|OPTIONS|HEAD|TRACE)$")
 
 // goFieldKeyNoSuffix: getSyslSafeName alone.
 func goFieldKeyNoSuffix(name string) string {
